@@ -65,3 +65,83 @@ m('C12','benign-nil-test-first','rtpconn/webclient.go',
   'if c.group == nil || a.group != c.group.Name() {\n\t\t\tlog.Printf("got client for wrong group")\n\t\t\treturn nil\n\t\t}',
   'if c.group == nil {\n\t\t\treturn nil\n\t\t}\n\t\tif a.group != c.group.Name() {\n\t\t\tlog.Printf("got client for wrong group")\n\t\t\treturn nil\n\t\t}',
   '','','nil test split into its own if',benign=True)
+# ---------------- C10 ----------------
+G='group/group.go'
+m('C10','locked-ignored',G,
+  'if g.locked != nil {\n\t\t\t\tm := *g.locked','if g.locked != nil && creds.Password == "" {\n\t\t\t\tm := *g.locked',
+  'R10.1','admission: locked','locked group admits non-operators with a password',quick=True)
+m('C10','capacity-off-by-one',G,
+  'if len(g.clients) >= g.description.MaxClients {','if len(g.clients) > g.description.MaxClients {',
+  'R10.1','admission: max-clients','one client too many is admitted')
+m('C10','expires-inverted',G,
+  'g.description.Expires.Before(now) {','g.description.Expires.After(now) {',
+  'R10.1','admission: expires','expired groups admit, open groups refuse')
+m('C10','notbefore-dropped',G,
+  'if g.description.NotBefore != nil &&\n\t\t\t\t\tg.description.NotBefore.After(now) {','if false {',
+  'R10.1','admission: not-before','joins before the opening time')
+m('C10','autokick-ops-default',G,
+  'ops := false\n\t\t\t\tfor _, c := range clients {','ops := len(clients) > 0\n\t\t\t\tfor _, c := range clients {',
+  'R10.1','admission: autokick','any member counts as an operator')
+m('C10','autokick-wrong-perm',G,
+  'if slices.Contains(\n\t\t\t\t\t\tc.Permissions(), "op",\n\t\t\t\t\t) {\n\t\t\t\t\t\tops = true','if slices.Contains(\n\t\t\t\t\t\tc.Permissions(), "present",\n\t\t\t\t\t) {\n\t\t\t\t\t\tops = true',
+  'R10.1','operator-present flag','presenters count as operators for autokick')
+m('C10','duplicate-id-allowed',G,
+  'if g.clients[id] != nil {\n\t\treturn nil, ProtocolError("duplicate client id")\n\t}','',
+  'R10.1','admission: duplicate id','a second client with the same id replaces the first')
+m('C10','capacity-check-then-act',G,
+  '\tid := c.Id()\n\tif id == "" {','\tg.mu.Unlock()\n\tg.mu.Lock()\n\tid := c.Id()\n\tif id == "" {',
+  'R10.2','single lock region','lock dropped between the capacity test and the insertion: racing joins exceed max-clients')
+m('C10','delclient-autolock-late',G,
+  'clients := g.getClientsUnlocked(nil)\n\tautoLockKick(g)\n\tg.mu.Unlock()\n\n\tc.Joined(g.Name(), "leave")',
+  'clients := g.getClientsUnlocked(nil)\n\tg.mu.Unlock()\n\tg.mu.Lock()\n\tautoLockKick(g)\n\tg.mu.Unlock()\n\n\tc.Joined(g.Name(), "leave")',
+  'R10.3','DelClient: autolock','autolock re-evaluated in a second critical section')
+m('C10','announce-before-insert',G,
+  '\tg.clients[id] = c\n\tg.timestamp = time.Now()\n\n\tc.Joined(g.Name(), "join")','\tc.Joined(g.Name(), "join")\n\tg.clients[id] = c\n\tg.timestamp = time.Now()\n',
+  'R10.4','Joined after insertion','join announced before the client is a member')
+m('C10','autolock-ignores-ops',G,
+  'for _, c := range clients {\n\t\tif slices.Contains(c.Permissions(), "op") {\n\t\t\treturn\n\t\t}\n\t}','',
+  'R10.5','autoLockKick: lock condition','autolock locks the group while an operator is present')
+m('C10','add-skips-autolock',G,
+  '\tautoLockKick(g)\n\n\tvar clients []Client\n\tif notify {','\tif notify {\n\t\tautoLockKick(g)\n\t}\n\n\tvar clients []Client\n\tif notify {',
+  'R10.5','add: autolock','a fresh autolock group does not start locked')
+m('C10','benign-nested-ifs',G,
+  'if !slices.Contains(perms, "op") &&\n\t\t\tg.description.MaxClients > 0 {\n\t\t\tif len(g.clients) >= g.description.MaxClients {\n\t\t\t\treturn nil, UserError("too many users")\n\t\t\t}\n\t\t}',
+  'if !slices.Contains(perms, "op") {\n\t\t\tif g.description.MaxClients > 0 && len(g.clients) >= g.description.MaxClients {\n\t\t\t\treturn nil, UserError("too many users")\n\t\t\t}\n\t\t}',
+  '','','capacity test regrouped',benign=True)
+# ---------------- C14 ----------------
+m('C14','add-forgets-old-members',G,
+  '\t\tc.PushClient(g.Name(), "add", cc.Id(), uu, pp, cc.Data())\n','\t\t_, _ = uu, pp\n',
+  'R14.1','newcomer learns about each member','the newcomer is not told about existing members',quick=True)
+m('C14','add-wrong-identity',G,
+  'cc.PushClient(g.Name(), "add", id, u, p, s)','cc.PushClient(g.Name(), "add", id, uu, p, s)',
+  'R14.1','each member learns about the newcomer','existing members learn the newcomer under another username')
+m('C14','add-snapshot-after-insert',G,
+  '\tclients := g.getClientsUnlocked(nil)\n\n\tvar username string','\tvar clients []Client\n\n\tvar username string',
+  'R14.1','','snapshot of members missing')
+m('C14','add-loop-skips-system',G,
+  '\tfor _, cc := range clients {\n\t\tpp := cc.Permissions()','\tfor _, cc := range clients {\n\t\tif cc.Username() == "" {\n\t\t\tcontinue\n\t\t}\n\t\tpp := cc.Permissions()',
+  'R14.1','loop covers every member','anonymous members are skipped')
+m('C14','del-any-client',G,
+  'if g.clients[c.Id()] != c {\n\t\tlog.Printf("Deleting unknown client")\n\t\tg.mu.Unlock()\n\t\treturn\n\t}','',
+  'R14.2','removes only the registered client','a stale client object deletes the registered member')
+m('C14','del-snapshot-before-removal',G,
+  '\tdelete(g.clients, c.Id())\n\tg.timestamp = time.Now()\n\tclients := g.getClientsUnlocked(nil)\n','\tclients := g.getClientsUnlocked(nil)\n\tdelete(g.clients, c.Id())\n\tg.timestamp = time.Now()\n',
+  'R14.2','snapshot of the remaining members','the leaver is told about its own departure as a member; snapshot stale')
+m('C14','del-wrong-kind',G,
+  'g.Name(), "delete", c.Id(), c.Username(), nil, nil,','g.Name(), "change", c.Id(), c.Username(), nil, nil,',
+  'R14.2','every remaining member is told','departure announced as a change')
+m('C14','del-no-leave-message',G,
+  '\tc.Joined(g.Name(), "leave")\n','',
+  'R14.2','leaver is told it left','the leaver never receives joined/leave')
+m('C14','change-broadcast-except-self',W,
+  'clients := g.GetClients(nil)\n\t\tgo func(clients []group.Client) {','clients := g.GetClients(c)\n\t\tgo func(clients []group.Client) {',
+  'R14.3','change broadcast: permissions','permission change not sent to everyone')
+m('C14','setdata-no-broadcast',W,
+  '\t\t\t}(g.GetClients(nil))\n\t\tdefault:\n\t\t\treturn group.UserError("unknown user action")','\t\t\t}(nil)\n\t\tdefault:\n\t\t\treturn group.UserError("unknown user action")',
+  'R14.3','change broadcast: data','data change is not broadcast')
+m('C14','user-event-unfiltered',W,
+  'if c.group == nil || a.group != c.group.Name() {\n\t\t\tlog.Printf("got client for wrong group")\n\t\t\treturn nil\n\t\t}','if c.group == nil {\n\t\t\treturn nil\n\t\t}',
+  'R14.3','user events are filtered','events of another group reach the client')
+m('C14','loop-no-deferred-leave',W,
+  '\tdefer leaveGroup(c)\n\n\treadTime := time.Now()','\treadTime := time.Now()',
+  'R14.4','clientLoop always leaves','a disconnecting client stays a member')
